@@ -86,7 +86,8 @@ def LP.neg (p : LP R) : LP R :=
   if p.iszero then LP.mk' [] p.dmin else LP.mk' (p.coefs.map (- ·)) p.dmin
 
 /-- `__invert__` : w -> 1/w -/
-def LP.inv (p : LP R) : LP R := LP.mk' p.coefs.reverse (-p.dmax)
+def LP.inv (p : LP R) : LP R :=
+  if p.iszero then LP.mk' [] (-p.dmax) else LP.mk' p.coefs.reverse (-p.dmax)
 
 /-- `aligned` -/
 def LP.aligned (p : LP R) (lo hi : Int) : Except Err (List R) :=
